@@ -25,7 +25,7 @@ def XScript.isTop (s : XScript) : Bool := !s.isInsert && !s.isRemove
 
 theorem xMatch_top (c : Nat) : (xMatch c).isTop = true := rfl
 
-theorem kidsScript_top (fcs tcs : List XTree) (tbl : List (List XScript)) : (kidsScript fcs tcs tbl).isTop = true := by
+theorem kidsScript_top (o : Opts) (fcs tcs : List XTree) (tbl : List (List XScript)) : (kidsScript o fcs tcs tbl).isTop = true := by
   unfold kidsScript
   split
   · rfl
